@@ -5,6 +5,9 @@ import (
 	"os"
 	"path/filepath"
 	"sort"
+	"sync"
+	"sync/atomic"
+	"time"
 
 	"github.com/ostafen/clover/v2/document"
 	"github.com/ostafen/clover/v2/query"
@@ -56,10 +59,58 @@ func updaterFunc(u *m.Updater, res *Result) func(*document.Document) *document.D
 	}
 }
 
+// ---- hang monitor: every operation in flight is registered, so that a call that never returns is reported
+// (with the operation) instead of blocking the whole check silently ----
+
+type inflightOp struct {
+	In    *Inst
+	Op    m.Op
+	Start time.Time
+}
+
+var (
+	inflight    sync.Map // call id -> *inflightOp
+	inflightSeq int64
+)
+
+// ForgetInflight drops the registrations of an instance (threads parked for good after an aborted schedule).
+func ForgetInflight(in *Inst) {
+	inflight.Range(func(k, v interface{}) bool {
+		if v.(*inflightOp).In == in {
+			inflight.Delete(k)
+		}
+		return true
+	})
+}
+
+// StartHangMonitor calls onHang once if some operation has been running for longer than limit.
+func StartHangMonitor(limit time.Duration, onHang func(backend string, op m.Op, running time.Duration)) {
+	go func() {
+		for {
+			time.Sleep(5 * time.Second)
+			var hit *inflightOp
+			inflight.Range(func(k, v interface{}) bool {
+				if f := v.(*inflightOp); time.Since(f.Start) > limit {
+					hit = f
+					return false
+				}
+				return true
+			})
+			if hit != nil {
+				onHang(hit.In.Backend, hit.Op, time.Since(hit.Start))
+				return
+			}
+		}
+	}()
+}
+
 // Exec runs one operation through the public API, recovering panics and checking for leaked transactions.
 func Exec(in *Inst, o m.Op) (res *Result) {
 	res = &Result{}
 	db := in.DB
+	callID := atomic.AddInt64(&inflightSeq, 1)
+	inflight.Store(callID, &inflightOp{In: in, Op: o, Start: time.Now()})
+	defer inflight.Delete(callID)
 	defer func() {
 		if p := recover(); p != nil {
 			res.Panic = p
